@@ -452,6 +452,15 @@ func (vlog *valueLog) rewrite(bucket uint32, fid uint32) error {
 		}
 	}
 
+	// Every record that supersedes or replaces an entry of this file must be
+	// in the WAL file before the old copy disappears: after a crash recovery
+	// would otherwise replay an older record that points into the removed file.
+	if vlog.db != nil && vlog.db.wal != nil {
+		if err := vlog.db.wal.Sync(); err != nil {
+			return err
+		}
+	}
+
 	deleteNow := false
 	vlog.filesToDeleteLock.Lock()
 	if vlog.iteratorCount() == 0 {
